@@ -5,6 +5,9 @@ VERIF = os.path.dirname(os.path.dirname(os.path.abspath(__file__)))
 
 # id -> (category, technique, text, note, design_ref)
 CHECKS = {
+    'C03': ('exploration', 'round-trip monitoring: real NLWriter2 -> real NL reader with the recording checker handler and a canonical-event equality oracle, under ASan',
+            'Random model descriptions over every opcode, bound kind, suffix kind and adversarial doubles are fed through an NLFeeder to WriteNLFile in all 24 option/format combinations and each file is read back by ReadNLFile; the recorded notifications must equal the fed model item by item with bit-identical numbers, and all encodings of one model must be indistinguishable.',
+            'operator identity is matched by name between nl-opcodes.h and expr::Kind; |bound| >= DBL_MAX is treated as the writer\'s documented infinity', '2/C03'),
     'C02': ('exploration', 'hostile-input monitoring of the real NL reader under ASan+UBSan with an online consistency checker as receiving handler, string path vs. file path differential',
             'Valid NL models over all operators from our own text/binary/byte-swapped encoders, padded to page-multiple sizes, are mutated and read through ReadNLString and ReadNLFile with and without READ_BOUNDS_FIRST into a recording handler that asserts every index/count/nesting rule against the header it received, into NullNLHandler and into mp::Problem; sanitizer reports, unlocated exceptions, inconsistent notifications, string/file differences and misreported valid models are violations.',
             'ASan/UBSan instrumentation; allocator-limit aborts for gigantic declared sizes are counted as resource exhaustion; our NL encoders define what a valid file is', '2/C02'),
